@@ -34,10 +34,15 @@ TopPos(E)      == IF \E i \in Idx(E) : E[i].k = "top" THEN MinOf({i \in Idx(E) :
 RunEnds(E, s)  == {i \in Idx(E) : E[i].n = s /\ E[i].k \in {"run-end", "run-exc"}}
 DiagsAt(E, s)   == {i \in Idx(E) : E[i].n = s /\ E[i].k = "diag"}
 
+RECURSIVE DescOf(_, _)
+DescOf(C, s) == UNION {{k} \cup DescOf(C, k) : k \in KidsOf(C, s)}
 SymC01(C, E) ==
   \E j \in NodesOf(C) \ {1} : StartPos(E, j) > 0 /\
      \/ \E r \in C.req[j] : FinPos(E, r) = 0 \/ FinPos(E, r) > StartPos(E, j)
      \/ StartPos(E, C.parent[j]) = 0 \/ StartPos(E, C.parent[j]) > StartPos(E, j)
+     \* a required nested scheduler is over only when its whole run is: nothing inside still executing
+     \/ \E r \in C.req[j] : \E d \in DescOf(C, r) :
+           StartPos(E, d) > 0 /\ StartPos(E, d) < StartPos(E, j) /\ (OverPos(E, d) = 0 \/ OverPos(E, d) > StartPos(E, j))
 
 SymC02(C, E) ==
   \/ \E j \in NodesOf(C) : Cardinality(Starts(E, j)) > 1
